@@ -170,6 +170,13 @@ fn vrun(profile: &str, seed: u64, start: u64, count: u64, out: &str, verbose: bo
                 tally.violation(prop, sig, detail, idx, json!({"stream": vh::evrec::render(&tw.evs)}));
             }
         }
+        // a complete run inside a step / after hook of another run on the same thread
+        if idx % 50 == 11 && matches!(profile, "general" | "c10") {
+            tally.count("nested_runs", 1);
+            for (prop, sig, detail) in exec::run_nested(idx) {
+                tally.violation(prop, sig, detail, idx, json!(null));
+            }
+        }
         tally.sample("run", 3, || {
             json!({"case_index": idx, "case": case.describe(), "stream": vh::evrec::render(&run.evs), "schedule": run.qpoints.iter().map(|q| q.decision.clone()).collect::<Vec<_>>()})
         });
